@@ -33,13 +33,19 @@ def cases(draw):
         prog.append(item)
         if draw(st.integers(0, 25)) == 0:
             prog.append(list(draw(st.sampled_from(HOOKS))))
-    if draw(st.booleans()) and base["regions"]:
+    if draw(st.integers(0, 3)) > 0 and base["regions"]:
         # make sure many programs end inside an episode
         rnd = gen.Renderer(base["config"], base["regions"], PROFILE, 0.508, False, False)
         for item in prog:
             if item[0] == "g":
                 rnd.pr.execute(item[1])
-        if rnd.pr.abs and rnd.pr.u == 1.0:
+        if not rnd.pr.abs:
+            prog.append(["g", "G90"])
+            rnd.pr.execute("G90")
+        if rnd.pr.u != 1.0 and draw(st.booleans()):
+            prog.append(["g", "G21"])
+            rnd.pr.execute("G21")
+        if rnd.pr.abs:
             tx, ty = rnd.target("in", draw(st.integers(0, 3)), draw(st.integers(0, 100)), draw(st.integers(0, 100)))
             prog.append(["g", "G1 X%s Y%s" % (gen.fmt(rnd.lx("x", tx)), gen.fmt(rnd.lx("y", ty)))])
             for _ in range(draw(st.integers(1, 3))):
